@@ -357,6 +357,10 @@ class SigmaCondition(ProcessingItemTrackingMixin):
                 return parsed
         except ParseException as e:
             raise SigmaConditionError(str(e), source=self.source)
+        except RecursionError:
+            raise SigmaConditionError(
+                "Condition is nested too deeply to be parsed", source=self.source
+            )
 
     @property
     def parsed(
